@@ -36,7 +36,7 @@ func listAccounts(w http.ResponseWriter, r *http.Request) {
 		case errors.Is(err, ledgerstorage.ErrMissingFeature{}):
 			api.BadRequest(w, common.ErrValidation, err)
 		default:
-			common.HandleCommonErrors(w, r, err)
+			common.HandleCommonPaginationErrors(w, r, err)
 		}
 		return
 	}
